@@ -42,15 +42,16 @@ def run(ck):
     def solo(args):
         n, out, pre = args[:3]
         amb = args[3] if len(args) > 3 else 0
+        fsize = args[4] if len(args) > 4 else None
         cnt[0] += 1
         w = os.path.join(ck.workdir, 'a%d' % (cnt[0] % 4096))
         shutil.rmtree(w, ignore_errors=True)
         os.makedirs(w)
-        target = os.path.join(w, 'log') if out == 'file' else '/dev/null'
-        open(os.path.join(w, 'snoopy.ini'), 'w').write('[snoopy]\nmessage_format = %%{env:M}\ndatasource_message_max_length = 1048575\nlog_message_max_length = 1048575\noutput = %s\n' % ('file:' + target if out == 'file' else 'devnull'))
+        target = os.path.join(w, 'log') if out == 'file' else ('/dev/stdout' if out == 'devstdout' else '/dev/null')
+        open(os.path.join(w, 'snoopy.ini'), 'w').write('[snoopy]\nmessage_format = %%{env:M}\ndatasource_message_max_length = 1048575\nlog_message_max_length = 1048575\noutput = %s\n' % ('file:' + target if out in ('file', 'devstdout') else 'devnull'))
         if pre is not None and out == 'file':
             open(target, 'wb').write(pre)
-        rep = X.run(sx, w, [v['h_one'], os.path.join(w, 'snoopy.ini'), os.path.join(w, 'res.json'), '0', '1', '-', str(n)], env=dict(CLEAN_ENV, VERIF_AMBIENT_ERRNO=str(amb)), timeout=60)
+        rep = X.run(sx, w, [v['h_one'], os.path.join(w, 'snoopy.ini'), os.path.join(w, 'res.json'), '0', '1', '-', str(n)], env=dict(CLEAN_ENV, VERIF_AMBIENT_ERRNO=str(amb), **({'VERIF_RLIMIT_FSIZE': str(fsize)} if fsize is not None else {})), timeout=60)
         after = open(target, 'rb').read() if out == 'file' and os.path.exists(target) else None
         calls = rep.get('calls', [])
         fds = []
@@ -74,6 +75,7 @@ def run(ck):
         rep['bad_closes'] = [c['a'][0] for c in calls if c['name'] == 'close' and isinstance(c.get('ret'), int) and c['ret'] < 0]
         rep['left_open'] = list(fds)
         rep['ambient_errno'] = amb
+        rep['fsize'] = fsize
         shutil.rmtree(w, ignore_errors=True)
         return n, out, pre, opens, writes, tuple(pattern), after, rep
     evals = 0
@@ -93,6 +95,12 @@ def run(ck):
         for n in (1, 4096, 70000):
             jobs.append((n, 'file', None, amb))
             jobs.append((n, 'file', pres[0], amb))
+    # the caller's file size limit cuts the append short: what is in the file stays there, nothing is taken back or repositioned
+    for n, pre, lim in ((100, b'x' * 4000, 4050), (100, b'x' * 4000, 4000), (5000, b'', 4096), (100, b'x' * 4000, 4101)):
+        jobs.append((n, 'file', pre, 0, lim))
+    # a path below /dev that is not a device: /dev/stdout (whatever the caller's stdout is - here a pipe)
+    for n in (1, 4096, 70000):
+        jobs.append((n, 'devstdout', None))
     for n, out, pre, opens, writes, pattern, after, rep in pmap(solo, jobs):
         evals += 1
         bad = []
@@ -108,6 +116,8 @@ def run(ck):
                 bad.append('opened_with_O_TRUNC')
             if fl & O_NONBLOCK:
                 bad.append('opened_non_blocking')     # on a tty or FIFO destination a non-blocking append may be cut short: not one indivisible append
+        if any(x in pattern for x in ('ftruncate', 'lseek')):
+            bad.append('log_file_shortened_or_repositioned')
         if rep.get('bad_closes'):
             bad.append('closed_a_descriptor_that_was_not_open')
         if rep.get('left_open'):
@@ -118,6 +128,8 @@ def run(ck):
             bad.append('single_write_is_not_the_whole_record')
         if out == 'file':
             want = (pre or b'') + b'm' * n + b'\n'
+            if rep.get('fsize') is not None:
+                want = want[:max(rep['fsize'], len(pre or b''))]
             if after != want:
                 bad.append('file_content_wrong')
         patterns.setdefault((out, pattern), []).append(n)
